@@ -149,6 +149,8 @@ def batch(args):
         if hostile:
             for (cname, raw, vp) in HOSTILE:
                 cases.append((schema, None, cname, raw, vp))
+    shared = ch.Chaperone(silent=True)       # one long-lived validator for the whole batch: a fold must not depend on what was folded before
+    prep = []
     for (schema, inst, cname, raw, vp) in cases:
         chap = ch.Chaperone(silent=True)
         single = {}
@@ -164,11 +166,16 @@ def batch(args):
             oracle = True
         except Exception:
             ref, oracle = None, False
-        for order in orders:
+        prep.append((single, ref, oracle))
+    todo = [(ci, order) for ci in range(len(cases)) for order in orders]
+    rng.shuffle(todo)                         # consecutive folds on the shared instance are for unrelated texts and orders
+    for (ci, order) in todo:
+        (schema, inst, cname, raw, vp), (single, ref, oracle) = cases[ci], prep[ci]
+        if True:
             o = {"order": order, "raised": False, "strict_oracle": oracle, "value_preserving": vp, "corruption": cname}
             try:
-                plain = chap.fold(raw, schema, strategies=[FS[s] for s in order])
-                enh = chap.fold_enhanced(raw, schema, strategies=[FS[s] for s in order])
+                plain = shared.fold(raw, schema, strategies=[FS[s] for s in order])
+                enh = shared.fold_enhanced(raw, schema, strategies=[FS[s] for s in order])
             except Exception as ex:
                 o.update(raised=True, exc="%s" % type(ex).__name__, valid=False, strategy="none", conf=0, has_struct=False, has_err=True, is_instance=False, revalidates=False,
                          equals_json=False, agree=False, no_fabrication=True, matches_truth=True)
@@ -245,7 +252,7 @@ def run(tier):
     R.cov["exhaustive"] = False
     R.cov["rule"] = ("8 generated schemas (int/float/str/bool/list/optional/nested/defaults) x seeded random instances x ~20 corruption operators (fences, prose, xml tag, single quotes, "
                      "trailing comma, Python literals, unquoted keys, truncation, concatenation, type swaps, missing/extra field) + 8 hostile texts (60 000-deep nesting, 6 000-digit integer, "
-                     "NULs, lone surrogate, 100 kB unterminated string), each folded plain and enhanced under %s strategy orders; every record judged by TLC, which also runs the cascade machine on "
+                     "NULs, lone surrogate, 100 kB unterminated string), each folded plain and enhanced under %s strategy orders on one long-lived Chaperone per batch (per-strategy outcomes on a fresh one); every record judged by TLC, which also runs the cascade machine on "
                      "the per-strategy outcomes. non-trivial = a fold that is invalid or valid by a non-strict strategy" % ("half of the 64" if quick else "all 64 (every second for the extra instances)"))
     R.assumptions += ["instance-level booleans (is instance, re-validates, equals json parsing, no fabricated leaf, equals the serialised instance) are computed by the harness with pydantic/json",
                       "string values avoid quotes, braces and the words the repair strategy rewrites; character-level regex behaviour is reached by sampling only"]
